@@ -292,7 +292,9 @@ func (vc *FuncVC) constVal(c *ssa.Const) *Val {
 	case constant.Bool:
 		return &Val{T: BoolLit(constant.BoolVal(c.Value)), GoType: t}
 	case constant.String:
-		return &Val{T: IntLit(vc.W.strCode(constant.StringVal(c.Value))), GoType: t}
+		code := IntLit(vc.W.strCode(constant.StringVal(c.Value)))
+		vc.assume(Eq(vc.strLen(code), IntLit(int64(len(constant.StringVal(c.Value))))))
+		return &Val{T: code, GoType: t}
 	case constant.Int:
 		n, _ := new(big.Int).SetString(c.Value.ExactString(), 10)
 		if isCondition(t) {
